@@ -25,7 +25,9 @@ IsWave == c.type = "wave"
 IsAB == c.type = "ab"
 
 ASSUME Len(ABOffsetMilli) = Len(Bands) /\ Len(Bands) = 5
-ASSUME \A k \in Kinds : UnitOf(InAngstrom(k)) = "A" /\ ScalarOf(k) \in ScalarKinds
+ASSUME \A k \in Kinds : /\ UnitOf(InAngstrom(k)) = "A" /\ ScalarOf(k) \in ScalarKinds
+                      /\ DoubleOf(k) \in (DoubleScalarKinds \cup DoubleArrayKinds)
+                      /\ UnitOf(DoubleOf(k)) = UnitOf(k) /\ (DoubleOf(k) \in ScalarKinds <=> k \in ScalarKinds)
 
 (* spec-level laws, one invariant each *)
 C19_GuardPartition == IsWave => GuardPartition(c)
@@ -33,6 +35,7 @@ C19_OppositeDirections == IsWave => OppositeDirections(c)
 C19_ArrayIsMapOfScalar == IsWave => ArrayIsMapOfScalar(c)
 C19_UnitIndependent == IsWave => UnitIndependent(c)
 C19_TotalOnDomain == IsWave => TotalOnDomain(c)
+C19_ElementTypeIndependent == IsWave => ElementTypeIndependent(c)
 C19_AnswerInCallersForm == IsWave => /\ exp.form.quantity = (c.kind \in QuantityKinds)
                                      /\ exp.form.scalar = (c.kind \in ScalarKinds)
                                      /\ (c.kind \in ScalarKinds => Len(c.pat) = 1)
@@ -41,5 +44,5 @@ C19_SignalToNoiseKept == IsAB => SignalToNoiseKept(c.band)
 C19_OffsetIndependentOfLevel == IsAB => OffsetIndependentOfLevel(c)
 (* the named deviation differs from the specification exactly on the 0-d kinds at/above the guard *)
 C19_DeviationIsLocal == IsWave => ((Dev_ZeroDimRaises(c) # Expected(c)) <=>
-                                      (c.kind \in (ScalarKinds \ {"float"}) /\ c.pat[1] # "below"))
+                                      (c.kind \in (ScalarKinds \ {"float", "pyint"}) /\ c.pat[1] # "below"))
 =============================================================================
